@@ -47,6 +47,63 @@ def arr_fp(a):
             'legs': [id(l) for l in a.legs], 'legfp': [leg_fp(l) for l in a.legs], 'sane': sane}
 
 
+def byte_bounds(b):
+    try:
+        from numpy.lib.array_utils import byte_bounds as bb
+    except Exception:                                   # numpy 1.x
+        bb = np.byte_bounds
+    return bb(b)
+
+
+def mem_shares(x, y):
+    """do the numpy arrays x and y have at least one byte of memory in common (exact, not only the bounds)"""
+    if x.size == 0 or y.size == 0 or not np.may_share_memory(x, y):
+        return False
+    try:
+        return bool(np.shares_memory(x, y, max_work=100000))
+    except Exception:
+        return True
+
+
+def share_pairs(groups):
+    """groups: {key: [ndarray, ...]}; returns the sorted list of key pairs (k1 < k2) that own blocks with common memory.
+    Sweep over the byte intervals of all blocks, exact np.shares_memory only for overlapping intervals."""
+    iv = []
+    for k, blocks in groups.items():
+        for b in blocks:
+            if isinstance(b, np.ndarray) and b.size > 0:
+                lo, hi = byte_bounds(b)
+                iv.append((lo, hi, k, b))
+    iv.sort(key=lambda t: (t[0], t[1]))
+    out = set()
+    active = []
+    for lo, hi, k, b in iv:
+        active = [t for t in active if t[1] > lo]
+        for lo2, hi2, k2, b2 in active:
+            if k2 != k and (min(k, k2), max(k, k2)) not in out and mem_shares(b, b2):
+                out.add((min(k, k2), max(k, k2)))
+        active.append((lo, hi, k, b))
+    return sorted(out)
+
+
+def write_probe(target, partners):
+    """the active test for hidden aliasing: write `+1` INTO every block buffer of `target` (what the compiled
+    iscale_prefactor / iadd_prefactor_other / __setitem__ do), report which of the `partners` (name -> tensor) changed
+    their dense value, and restore the buffers byte by byte."""
+    before = {k: arr_fp(x)['val'] for k, x in partners.items()}
+    saved = []
+    try:
+        for b in target._data:
+            if isinstance(b, np.ndarray) and b.flags.writeable and b.size > 0:
+                saved.append((b, b.copy()))
+                np.add(b, 1, out=b, casting='unsafe')
+        changed = sorted(k for k, x in partners.items() if arr_fp(x)['val'] != before[k])
+    finally:
+        for b, old in reversed(saved):
+            b[...] = old
+    return changed
+
+
 class Tracker:
     def __init__(self, env):
         self.env = env
@@ -73,6 +130,10 @@ class Tracker:
 
     def snapshot(self):
         return {i: arr_fp(r) for i, r in enumerate(self.env.regs) if isinstance(r, npc.Array)}
+
+    def shares(self):
+        """pairs of live tensors (register numbers) whose block buffers overlap in memory"""
+        return share_pairs({i: list(r._data) for i, r in enumerate(self.env.regs) if isinstance(r, npc.Array)})
 
     def changed_legs(self):
         out = []
@@ -120,6 +181,19 @@ def run_step03(env, st, ext):
     if op == 'ireplace_label':
         a.ireplace_label(st['old'], st['new'])
         return None
+    if op == 'replace_label':
+        return a.replace_label(st['old'], st['new'])
+    if op == 'add_trivial_leg':
+        return a.add_trivial_leg(st['axis'], st.get('label'), st['qconj'])
+    if op == 'squeeze':
+        res = a.squeeze()
+        if not isinstance(res, npc.Array):
+            raise base.SkipStep()
+        return res
+    if op == 'astype_nocopy':
+        return a.astype(np.dtype(st['dtype']) if st.get('dtype') else a.dtype, copy=False)
+    if op == 'zeros_like':
+        return a.zeros_like()
     if op == 'gauge_total_charge':
         return a.gauge_total_charge(st['axis'])
     if op == 'to_ndarray':
@@ -159,6 +233,7 @@ def run_history(case):
     out = []
     tr.see_legs()
     before = tr.snapshot()
+    prev_sh = set()
     for st in case['steps']:
         rec = {}
         ext = []
@@ -173,6 +248,19 @@ def run_history(case):
             rec['error'] = type(e).__name__
             rec['msg'] = str(e)[:120]
         env.regs.append(res)
+        # hidden aliasing: which live tensors own block buffers with common memory; for every NEW pair that involves
+        # the result (the receiver of an in-place method) write into its buffers and see who else changes
+        sh = tr.shares()
+        rec['shares'] = [list(p) for p in sh]
+        tgt = len(env.regs) - 1 if isinstance(res, npc.Array) else st.get('a') if res is None else None
+        if tgt is not None and isinstance(env.regs[tgt], npc.Array):
+            partners = {j: env.regs[j] for p in sh if p not in prev_sh and tgt in p for j in p if j != tgt}
+            if partners:
+                try:
+                    rec['probe'] = {'target': tgt, 'partners': sorted(partners), 'changed': write_probe(env.regs[tgt], partners)}
+                except Exception as e:
+                    rec['probe'] = {'target': tgt, 'partners': sorted(partners), 'error': type(e).__name__ + ': ' + str(e)[:80]}
+        prev_sh = set(sh)
         after = tr.snapshot()
         ch = {}
         for i, fp in before.items():
@@ -220,6 +308,105 @@ def diff_fp(a, b):
     return [i for i, (x, y) in enumerate(zip(a, b)) if x != y] + ([-1] if len(a) != len(b) else [])
 
 
+def buffers_of(x):
+    """numpy buffers owned by a result: blocks of an Array, the array itself, items of tuples/lists"""
+    if isinstance(x, npc.Array):
+        return [b for b in x._data if isinstance(b, np.ndarray)]
+    if isinstance(x, np.ndarray):
+        return [x]
+    if isinstance(x, (tuple, list)):
+        return [b for y in x for b in buffers_of(y)]
+    return []
+
+
+def net_buffers(psi=None, H=None):
+    """named numpy buffers stored inside an MPS (site tensors, singular values) / MPO"""
+    out = {}
+    if psi is not None:
+        for i, B in enumerate(psi._B):
+            out['B[%d]' % i] = buffers_of(B)
+        for i, S in enumerate(psi._S):
+            out['S[%d]' % i] = buffers_of(S)
+    if H is not None:
+        for i, W in enumerate(H._W):
+            out['W[%d]' % i] = buffers_of(W)
+    return out
+
+
+def probe_accessors(psi, H, c, rng):
+    """Every accessor that returns tensors, for every site / form / copy flag: the returned object must not own memory
+    in common with the buffers stored in the network unless the sharing is documented (MPS.get_B / MPO.get_W with
+    copy=False: "we return the stored Array"; MPO.copy: "a shallow copy"; get_SL/get_SR return the stored singular
+    values themselves).  MPS.copy ("values of B and S are deeply copied") and extract_segment ("Copy of self") are not.  Where
+    memory IS shared, the active test writes +1 into the buffers of the result and fingerprints the network."""
+    L = psi.L
+    finite = psi.bc == 'finite'
+    stored = net_buffers(psi, H)
+    f0, w0 = mps_fp(psi), mpo_fp(H)
+    calls = []
+    sites = list(range(L)) if finite else list(range(-1, L + 1))
+    forms = ['B', 'A', 'C', 'G', 'Th', None, (0., 1.), (1., 0.), (None, 1.), (0., None), (0.5, 0.5)]
+    for i in sites:
+        for f in forms:
+            for cp in (False, True):
+                for lp in (None, '1'):
+                    calls.append(('get_B', 'get_B(%d, form=%r, copy=%r, label_p=%r)' % (i, f, cp, lp), not cp,
+                                  lambda i=i, f=f, cp=cp, lp=lp: psi.get_B(i, form=f, copy=cp, label_p=lp)))
+        for n in (1, 2, 3):
+            if finite and i + n > L:
+                continue
+            for fL in (0., 0.5, 1.):
+                for fR in (0., 0.5, 1.):
+                    calls.append(('get_theta', 'get_theta(%d, n=%d, formL=%r, formR=%r)' % (i, n, fL, fR), False,
+                                  lambda i=i, n=n, fL=fL, fR=fR: psi.get_theta(i, n=n, formL=fL, formR=fR)))
+        calls.append(('get_SL', 'get_SL(%d)' % i, True, lambda i=i: psi.get_SL(i)))
+        calls.append(('get_SR', 'get_SR(%d)' % i, True, lambda i=i: psi.get_SR(i)))
+        for cp in (False, True):
+            calls.append(('get_W', 'H.get_W(%d, copy=%r)' % (i, cp), not cp, lambda i=i, cp=cp: H.get_W(i, copy=cp)))
+        if finite and i + 1 < L:
+            calls.append(('get_rho_segment', 'get_rho_segment([%d, %d])' % (i, i + 1), False, lambda i=i: psi.get_rho_segment([i, i + 1])))
+        if finite and i + 2 < L:
+            calls.append(('get_rho_segment', 'get_rho_segment([%d, %d])' % (i, i + 2), False, lambda i=i: psi.get_rho_segment([i, i + 2])))
+    cpsi = psi.copy()
+    calls.append(('MPS.copy', 'psi.copy() [all buffers of the copy]', False, lambda: [list(cpsi._B), list(cpsi._S)]))
+    cH = H.copy()
+    calls.append(('MPO.copy', 'H.copy() [all W of the copy]', True, lambda: list(cH._W)))     # "Make a shallow copy of `self`"
+    if finite and L >= 4:
+        seg = psi.extract_segment(1, L - 2)
+        calls.append(('extract_segment', 'psi.extract_segment(1, %d) [all buffers]' % (L - 2), False, lambda: [list(seg._B), list(seg._S)]))
+    shared, errors, kinds = [], {}, {}
+    for kind, text, documented, f in calls:
+        try:
+            res = f()
+        except Exception as e:
+            errors[text] = type(e).__name__
+            continue
+        kinds[kind] = kinds.get(kind, 0) + 1
+        groups = dict(stored)
+        groups['~res'] = buffers_of(res)
+        hit = sorted(set(x for pr in share_pairs(groups) if '~res' in pr for x in pr if x != '~res'))
+        if not hit:
+            continue
+        rec = {'accessor': kind, 'call': text, 'shares_with': hit, 'documented': documented}
+        if not documented:
+            saved = []
+            try:
+                for b in groups['~res']:
+                    if b.flags.writeable and b.size > 0:
+                        saved.append((b, b.copy()))
+                        np.add(b, 1, out=b, casting='unsafe')
+                rec['write_changed'] = {'psi_parts': diff_fp(f0, mps_fp(psi)), 'mpo_parts': diff_fp(w0, mpo_fp(H))}
+            finally:
+                for b, old in reversed(saved):
+                    b[...] = old
+        shared.append(rec)
+    return {'calls': sum(kinds.values()), 'kinds': kinds, 'errors': dict(list(errors.items())[:5]), 'n_errors': len(errors),
+            'shared_documented': sum(1 for r in shared if r['documented']),
+            'shared_undocumented': [r for r in shared if not r['documented']][:20],
+            'forms': [repr(f) for f in psi.form],
+            'pure': diff_fp(f0, mps_fp(psi)) == [] and diff_fp(w0, mpo_fp(H)) == []}
+
+
 def run_mps(c):
     from tenpy.networks.mps import MPS
     from tenpy.networks.mpo import MPO
@@ -237,9 +424,13 @@ def run_mps(c):
         ops = ('Sigmaz', 'Sigmax', 'Sigmax')
     psi = MPS.from_product_state(M.lat.mps_sites(), state, bc=c['bc'])
     eng = tebd.TEBDEngine(psi, M, {'dt': 0.1, 'N_steps': 2, 'order': 2, 'trunc_params': {'chi_max': 8, 'svd_min': 1e-10}})
-    eng.run()                       # an entangled state with non-trivial bonds
+    if c.get('entangle', True):
+        eng.run()                   # an entangled state with non-trivial bonds
     if c.get('form_A'):
         psi.convert_form('A')
+    sf = c.get('store_form')        # how the tensors are stored: one form for all sites or a list (mixed forms)
+    if sf is not None:
+        psi.convert_form(sf)
     out = {}
     L = psi.L
     # ---- 1. constructors copy tensors
@@ -282,6 +473,7 @@ def run_mps(c):
     w0 = mpo_fp(H)
     W.iscale_prefactor(3.0)
     out['get_W_copy_independent'] = diff_fp(w0, mpo_fp(H)) == []
+    out['accessors'] = probe_accessors(psi, H, c, rng)
     # ---- 3. measurements leave psi (and the other operand) unchanged
     f0 = mps_fp(psi)
     f2 = mps_fp(psi2)
